@@ -10,6 +10,8 @@
    below by the engine development. *)
 From Ink.Data Require Import Types InkList IntSem Value Native NativeProofs.
 From Ink.Gen Require Import NativeGen.
+From Ink.Engine Require Import Api Tie.
+From Ink.Shell Require Import HostFrame Balance BetweenCalls ResetProofs.
 Local Open Scope Z_scope.
 
 (* + - * and unary minus wrap to 32 bits, whatever the operands and the build profile *)
@@ -101,3 +103,35 @@ Check native_total_unchecked_refuted : forall oo ovf fo defs,
 Print Assumptions native_total_unchecked_refuted.
 
 (* ---------------- PART 2: engine-wide (appended by the engine development) ---------------- *)
+
+(* ---------------- the bookkeeping invariant between host calls ---------------- *)
+(* Inv w := nesting counter = 0 /\ (no time-limited continue pending -> no look-ahead snapshot /\
+   rewind flag clear).  It holds for a freshly constructed story and is preserved by every story
+   operation (all forms of continue, choose, jump, evaluate, set a variable, flow operations,
+   reset) that does not end in a panic — whether the call returns Ok or Err.  The code fact it rests
+   on is regenerated: continue_internal tests can_continue before touching the counters
+   (now_cont_check_first).  Counter leaks (defect e98ca2b, seeded change C04) falsify it. *)
+Theorem bookkeeping_invariant :
+  forall (I : iface) (ops : list story_op) (w : world),
+    Inv w -> no_panic I sw_now ops w -> Inv (run_story_ops I sw_now ops w).
+Proof. exact (fun I => BetweenCalls.invariant_preserved I sw_now now_cont_check_first). Qed.
+Check bookkeeping_invariant :
+  forall (I : iface) (ops : list story_op) (w : world),
+    Inv w -> no_panic I sw_now ops w -> Inv (run_story_ops I sw_now ops w).
+Print Assumptions bookkeeping_invariant.
+
+Theorem between_calls_in_every_reachable_world :
+  forall (I : iface) (ops : list story_op) (w : world),
+    Inv w -> no_panic I sw_now ops w ->
+    w_async (run_story_ops I sw_now ops w) = false ->
+    between_calls (run_story_ops I sw_now ops w).
+Proof. exact (fun I => BetweenCalls.between_calls_reachable I sw_now now_cont_check_first). Qed.
+Check between_calls_in_every_reachable_world :
+  forall (I : iface) (ops : list story_op) (w : world),
+    Inv w -> no_panic I sw_now ops w ->
+    w_async (run_story_ops I sw_now ops w) = false ->
+    between_calls (run_story_ops I sw_now ops w).
+Print Assumptions between_calls_in_every_reachable_world.
+
+Example fresh_world_satisfies_invariant : forall st seed fuel, Inv (world_init st seed fuel).
+Proof. exact BetweenCalls.inv_world_init. Qed.
